@@ -29,7 +29,7 @@ def oracle_pass(chk, scripts, traces, props, pristine=False):
         prevg = None
         for rec in recs:
             ev = sc['events'][rec['seq']] if rec['seq'] >= 0 else {}
-            if ev.get('op') == 'Reconfigure' and rec['reply']['class'] == 'ok':
+            if ev.get('op') == 'Reconfigure' and rec['reply']['class'] == 'ok' and ev['config'] != '__CURRENT__':
                 cfg = ev['config']
                 changed = changed or ev.get('tag') == 'new'
             fs = fsoracle.ta_state_findings(rec, cfg, sc['_machine'], prevg)
